@@ -3,7 +3,14 @@
 Real BacktestingDispatcher on the virtual loop. One source with events at 10, 20, 30; every tuple (= multiset in every
 insertion order) of job times over a grid containing past / between / equal / beyond-the-last-event times; jobs
 scheduled up front, from event handlers (first and last event) and from another job; an optional raising job;
-max_concurrent 1..2; every suspension pattern of handlers and jobs within the deviation bound.
+max_concurrent 1..2; every suspension pattern of handlers and jobs within the deviation bound. A second family ("drain")
+has 5 / 6 / 7 jobs beyond the last event in EVERY insertion order (all 120 / 720 / 5040 permutations of distinct times, every 5-tuple
+over three times), scheduled up front or from the handler of the last event, on the default schedule (no suspension
+choices): what happens to them depends on the shape of the scheduler's heap, not on interleavings.
+
+Order clauses look at the END of jobs and handlers too: a job has finished before an event with a later time starts, and
+every event with an earlier time has finished before the job starts. A job whose time EQUALS an event's time may run
+before or after that timestamp's events (the statement only orders strictly earlier / later times).
 """
 import asyncio
 import itertools
@@ -17,12 +24,17 @@ from worlds.dsp import Gates, T, run_on_vloop, secs
 PROPERTY = "C13"
 RULE = ("scenario = (tuple of job times in insertion order, max_concurrent, where each job is scheduled from, raising "
         "job, number of event sources); per scenario every choice sequence (handler/job suspension pattern 0/1/2 yields or external gate, gate "
-        "release order) within the deviation bound is executed on the real dispatcher. Distinct = distinct "
+        "release order) within the deviation bound is executed on the real dispatcher; scenarios with >= 5 jobs (all "
+        "beyond the last event, every insertion order) run on the default schedule only. Distinct = distinct "
         "(scenario, invocation trace); non-trivial = at least one job and one event ran.")
 ASSUMPTIONS = [
     "job times on a 5-second grid 5..45 plus sub-second times sharing a second (25.2/25.8, 35.2/35.8), events at 10/20/30; at most 3 (quick) / 4 (thorough) jobs",
     "CPython FIFO ready-queue order is kept; only suspension patterns and external completion order are permuted",
     "jobs scheduled during the final drain (after the last event was handled) are outside the property (CHANGELOG 1.6.1)",
+    "drain family: 5, 6 and 7 (thorough: 8) jobs at distinct times beyond the last event in all 120 / 720 / 5040 insertion orders, all 243 5-tuples "
+    "over {35, 40, 45}; max_concurrent 2; no suspension choices (deviation bound 0)",
+    "a job with the same time as an event may run before or after that timestamp's events; the clock a job sees is only "
+    "bounded from below (the statement says 'at or after its scheduled time')",
 ]
 EVENTS = (10, 20, 30)
 import datetime as _dt  # noqa: E402
@@ -31,7 +43,9 @@ EVENTS_B = (10, 25)  # second source (scenarios with two sources): a tie with th
 TIMES = (5, 10, 15, 25, 30, 35, 40, 45)
 # sub-second times sharing a UTC second, between events and beyond the last one
 SUBSEC = (25.2, 25.8, 35.8, 35.2)
-BOUNDS = {"quick": dict(max_jobs=3, deviation_bound=1), "thorough": dict(max_jobs=4, deviation_bound=2)}
+BOUNDS = {"quick": dict(max_jobs=3, deviation_bound=1, drain_jobs=(5, 6, 7)),
+          "thorough": dict(max_jobs=4, deviation_bound=2, drain_jobs=(5, 6, 7, 8))}
+DRAIN_TIMES = (31, 32, 33, 34, 36, 37, 38, 39)
 EXPLANATION = ("implementation-level model checking: every explored trace is an execution of the real dispatcher; "
                "traces_validated_against_impl counts executions re-run from their recorded choices with identical "
                "observations (determinism check)")
@@ -54,7 +68,29 @@ def scenarios(tier, seed):
                             out.append((jt, maxc, mode, raising, 2))
                             if maxc == 1 and raising is None:
                                 out.append((jt, maxc, mode, raising, 3))
+    # drain family: many jobs beyond the last event, every insertion order, default schedule only
+    # (one work item = all insertion orders that begin with one given job: see drain_members)
+    for n in BOUNDS[tier]["drain_jobs"]:
+        for k in range(n):
+            out.append((("drain-perm", n, k), 2, "up", None, 1))
+            if n == 5:
+                out.append((("drain-perm", n, k), 2, "h30", None, 1))
+    for k in range(3):
+        out.append((("drain-prod", 5, k), 2, "up", None, 1))
     return out
+
+
+def drain_members(sc):
+    """The scenarios a drain work item stands for."""
+    (kind, n, k), maxc, m, raising, nsrc = sc
+    if kind == "drain-perm":
+        ts = DRAIN_TIMES[:n]
+        rest = ts[:k] + ts[k + 1:]
+        tuples = [(ts[k],) + p for p in itertools.permutations(rest)]
+    else:
+        vals = (35, 40, 45)
+        tuples = [(vals[k],) + p for p in itertools.product(vals, repeat=n - 1)]
+    return [(jt, maxc, (m,) * n, raising, nsrc) for jt in tuples]
 
 
 def make_run(sc, states=None):
@@ -83,13 +119,13 @@ def make_run(sc, states=None):
 
         async def h(e):
             t = secs(e.when)
-            trace.append(("ev", t, now()))
+            trace.append(("ev", t, now(), "a"))
             for i, m in enumerate(mode):
                 if m == "h%d" % t:
                     sched(i)
             note()
             await gates.suspend("h")
-            trace.append(("ev-end", t))
+            trace.append(("ev-end", t, "a"))
 
         def job(i):
             async def j():
@@ -100,18 +136,19 @@ def make_run(sc, states=None):
                             sched(k)
                 note()
                 if raising == i:
+                    trace.append(("job-end", i, "raises"))
                     raise ValueError("job fails")
                 await gates.suspend("j")
-                trace.append(("job-end", i))
+                trace.append(("job-end", i, "returns"))
             return j
 
         d.subscribe(src, h)
         if nsrc == 2:
             async def hb(e):
-                trace.append(("ev", secs(e.when), now()))
+                trace.append(("ev", secs(e.when), now(), "b"))
                 note()
                 await gates.suspend("hb")
-                trace.append(("ev-end", secs(e.when)))
+                trace.append(("ev-end", secs(e.when), "b"))
             d.subscribe(bs.FifoQueueEventSource(events=[bs.Event(T(t)) for t in EVENTS_B]), hb)
         for i, m in enumerate(mode):
             if m == "up":
@@ -171,7 +208,8 @@ def oracle(sc, trace, out, errs):
             pending.discard(x[1])
         elif x[0] == "ev":
             # (jobs scheduled while this very timestamp is being handled are exempt: events of one timestamp form one batch)
-            late = [p for p in pending if jt[p] <= x[1] and (sched_at.get(p) is None or sched_at[p] < x[1])]
+            # strictly earlier: a job whose time equals the event's time may run after that timestamp's events
+            late = [p for p in pending if jt[p] < x[1] and (sched_at.get(p) is None or sched_at[p] < x[1])]
             if late:
                 bad.append(("event-before-due-job", f"event@{x[1]} handled while job@{jt[late[0]]} pending"))
     for k, x in enumerate(trace):
@@ -183,6 +221,19 @@ def oracle(sc, trace, out, errs):
             for y in trace[k + 1:]:
                 if y[0] == "ev" and y[1] < x[2]:
                     bad.append(("job-before-earlier-event", f"job@{x[2]} ran before event@{y[1]}"))
+            # the END of things: the job has finished before an event with a later time starts; events with an earlier
+            # time have finished before the job starts
+            end = next((m for m in range(k + 1, len(trace)) if trace[m][0] == "job-end" and trace[m][1] == x[1]), None)
+            if end is None:
+                bad.append(("job-unfinished", f"job{x[1]}@{x[2]} was started but never ran to its end"))
+            for m in range(k + 1, end if end is not None else len(trace)):
+                y = trace[m]
+                if y[0] == "ev" and y[1] > limit:
+                    bad.append(("job-overlaps-later-event", f"event@{y[1]} started while job@{x[2]} was still running"))
+            started = {(y[1], y[3]) for y in trace[:k] if y[0] == "ev" and y[1] < x[2]}
+            finished = {(y[1], y[2]) for y in trace[:k] if y[0] == "ev-end"}
+            for t, s in sorted(started - finished):
+                bad.append(("job-overlaps-earlier-event", f"job@{x[2]} started while event@{t} was still being handled"))
     # events themselves: each exactly once, in order
     evs = [x[1] for x in trace if x[0] == "ev"]
     if evs != sorted(EVENTS + (EVENTS_B if nsrc == 2 else ())):
@@ -200,7 +251,15 @@ def signature(sc, clause, detail):
 
 def run_scenario(sc, tier):
     res = Result()
-    bound = BOUNDS[tier]["deviation_bound"]
+    if isinstance(sc[0][0], str):
+        for member in drain_members(sc):
+            _explore(member, 0, res)
+    else:
+        _explore(sc, BOUNDS[tier]["deviation_bound"], res)
+    return res
+
+
+def _explore(sc, bound, res):
     first = True
     for choices, tr, (trace, out, errs) in explore(make_run(sc, res.states), bound):
         res.executions += 1
